@@ -2,7 +2,7 @@
    Only statements, closed by `exact`, with Print Assumptions beneath each. *)
 From Coq Require Import NArith List String Arith.
 From SV.Gen Require Import Dispatch.
-From SV.Simd Require Import Blocked DispatchSpec DispatchProofs.
+From SV.Simd Require Import Blocked QuoteCap DispatchSpec DispatchProofs.
 Import ListNotations.
 
 (* (a) dispatch: useAVX2 / useSSE (regenerated from internal/native/dispatch_amd64.go on every run) assign exactly
@@ -92,3 +92,17 @@ Theorem C13_finder_variants_agree : forall s,
   memcchr_p32_avx2 s = memcchr_p32_sse s /\ memcchr_quote_unsafe_avx2 s = memcchr_quote_unsafe_sse s.
 Proof. exact finder_variants_agree. Qed.
 Print Assumptions C13_finder_variants_agree.
+
+(* memcchr_quote / memcchr_html_quote: the copying finder with a destination capacity.  AVX2 = loop 2W, test 2W, loop W,
+   test W, scalar; SSE = loop W, test W, scalar (W = 16): equal results (+k found / end of input, -(k)-1 destination full)
+   for every predicate, every W > 0, every input and every capacity *)
+Theorem C13_memcchr_quote_avx2_eq_sse :
+  forall (p : N -> bool) (W : nat), W > 0 -> forall (s : list N) (dn : nat),
+  memcchr_quote_avx2 p W s dn = memcchr_quote_sse p W s dn.
+Proof. exact memcchr_quote_avx2_eq_sse. Qed.
+Print Assumptions C13_memcchr_quote_avx2_eq_sse.
+
+Example C13_memcchr_quote_nonvacuous :
+  16 > 0 /\ memcchr_quote_avx2 needs_quote 16 (repeat 97%N 20 ++ [34%N] ++ repeat 97%N 19) 20 = Found 20 /\
+  memcchr_quote_sse needs_quote 16 (repeat 97%N 20 ++ [34%N] ++ repeat 97%N 3) 20 = Full 20.
+Proof. split; [repeat constructor | vm_compute; split; reflexivity]. Qed.
